@@ -32,7 +32,8 @@ BATCH = 10
 
 NUMS = ['-32769', '-32768', '-1', '0', '1', '2', '3', '7', '8', '9', '15', '16', '24', '25', '26', '40', '79', '80', '81',
         '127', '128', '255', '256', '257', '319', '320', '639', '640', '1000', '16383', '16384', '32767', '32768', '65535',
-        '65536', '1E38', '-1E38', '1.5', '-.5', '1D300', '1E-39', '&HFFFF', '&H8000', '&O177777', '1#', '2!', '3%']
+        '65536', '1E38', '-1E38', '1.5', '-.5', '1D300', '1E-39', '&HFFFF', '&H8000', '&O177777', '1#', '2!', '3%',
+        '1E400', '1D-400', '.1E99999', '1E+65536', '9D+999999999', '&H', '&O8']
 STRS = ['""', '"A"', '"ab"', 'CHR$(0)', 'CHR$(255)', 'CHR$(13)', 'CHR$(26)', 'STRING$(255,"x")', 'STRING$(128,0)', '"A:B"', '"C:\\X"',
         '"..\\..\\X"', '".. \\.. \\X"', '"*.*"', '"CON"', '"LPT1:"', '"LPT2:"', '"lpt3:"', '"COM2:"', '"COM1:X"', '"KYBD:"', '"SCRN:"', '"CAS1:"', '"COM1:"', '"@:X"', '"CD:X"', '":X"', '"AB:"', '"@A:"', '"prn"', '"NUL"', '"aux"', '"X.BAS"', '"BAD1.BAS"',
         '"BAD2.BAS"', '"BAD3.BAS"', '"BAD4.BAS"', '"T.DAT"', '"C:"', '"C:\\"', '"\\"', '"."', '".."', '"A=B"', '"PATH"', '"A="',
@@ -149,6 +150,13 @@ PSCEN = [
     ['NEW', '10 DEF FNA(X)=X+FNB(X):DEF FNB(X)=FNA(X)', '20 PRINT FNA({n})', 'RUN', 'PRINT FNA(1)', 'PRINT FNB({s})', 'X=FNC(1)'],
     ['NEW', '10 OPEN "R.DAT" FOR RANDOM AS 1 LEN=8:FIELD#1,8 AS A$', '20 LSET A$="x":PUT#1,1', 'RUN', '@checkpoint', 'PRINT#1,"y":PUT#1,2:GET#1,1', 'CLOSE'],
     ['NEW', '10 WHILE X<3:X=X+1:GOSUB 100:WEND', '20 END', '100 FOR I=1 TO 2:NEXT:RETURN {l}', 'RUN', 'WEND', 'NEXT', 'RETURN'],
+    # a syntax error leaves an edit prompt pending for a line that is then deleted, replaced or lost
+    ['NEW', '10 PRINT "a":X=)', '20 PRINT 2', 'RUN', 'DELETE 10', '@interact', 'RUN', '20 X=(', 'RUN', 'NEW', '@interact'],
+    # sound that never ends by itself, across a restart and a checkpoint
+    ['SOUND 440,65535', '@restart', 'SOUND {n},65535', '@restart', 'SOUND 440,65535:SOUND 0,0', 'PLAY "MBL1CDE"', '@checkpoint', '@restart', 'X=PLAY(0)', 'SOUND 37,0'],
+    # palette and pointer statements into arrays with odd subscripts
+    ['SCREEN {n}', 'DIM G%(10),H$(3),Q#(2,2)', 'PALETTE USING G%({n})', 'PALETTE USING G%(-1)', 'PALETTE USING G%(&H8000)',
+     'H$(1)="L8CDE":PLAY "X"+VARPTR$(H$(1))', 'DRAW "X"+VARPTR$(H$(2))', 'Q#(1,1)=3:PLAY "L="+VARPTR$(Q#(1,1))', 'ERASE H$:PLAY "X"+VARPTR$(H$(1))'],
 ]
 
 
@@ -163,6 +171,8 @@ def _pscen(rng):
             out.append({'op': 'interact', 'lines': [_fill(rng, rng.choice(TEMPLATES))]})
         elif st == '@checkpoint':
             out.append({'op': 'checkpoint'})
+        elif st == '@restart':
+            out.append({'op': 'restart'})
         else:
             out.append({'op': 'exec', 'line': _fill(rng, st)})
     return out
@@ -198,7 +208,7 @@ def gen(rng, tier, prop):
         if faulty and rng.random() < 0.10:
             ops.extend(_scenario(rng))
             continue
-        if rng.random() < 0.04:
+        if rng.random() < 0.05:
             ops.extend(_pscen(rng))
             continue
         if r < 0.70 or not faulty:
